@@ -137,3 +137,14 @@ impl<K: ExpiredKey<E>, E: Expiration, V: Copy> KeyExpTree<K, E, V> {
         }
     }
 }
+
+#[cfg(feature = "verif")]
+impl<K: ExpiredKey<E>, E: Expiration, V: Copy> KeyExpTree<K, E, V> {
+    /// What `into_ordered_vec(time)` returns, together with the capacity of that vector,
+    /// without consuming the tree (so that the purged tree can be inspected afterwards).
+    pub fn verif_export(&mut self, time: E) -> (Vec<V>, usize) {
+        let list = self.create_ordered_list(time);
+        let capacity = list.capacity();
+        (list, capacity)
+    }
+}
